@@ -19,7 +19,7 @@ func init() {
 	families["fasta"] = runFastaFam
 }
 
-var kindText = map[string]string{"ha": ">s1", "hb": ">s2 some description", "hn": ">", "hs": "> ", "AC": "AC", "ac": "ac",
+var kindText = map[string]string{"ha": ">s1", "hb": ">s2 some description", "ht": ">s3\ttabbed header", "hl": "> s4 after a blank", "hn": ">", "hs": "> ", "AC": "AC", "ac": "ac",
 	"N-": "N-", "GT": "GT", "A": "A", "AZ": "AZ", "bl": ""}
 
 func renderKinds(vec map[string]interface{}) []byte {
